@@ -113,7 +113,7 @@ theorem runOps_append (kids : Entry → List (Rat × Nat)) (fuel : Nat) (h : His
 /-- **A refused (backwards) `evolve_until` changes nothing.** -/
 theorem stepOp_backwards (kids : Entry → List (Rat × Nat)) (fuel : Nat) (h : Hist) (T : Rat)
     (hT : T < h.s.t) : stepOp kids fuel h (.evolve T) = h := by
-  simp [stepOp, evolveUntil, hT]
+  simp [stepOp, evolveUntil, hT, fired, spawned]
 
 theorem stepOp_forward (kids : Entry → List (Rat × Nat)) (fuel : Nat) (h : Hist) (T : Rat)
     (hT : ¬ T < h.s.t) : stepOp kids fuel h (.evolve T) =
@@ -354,7 +354,7 @@ structure HInv (h : Hist) : Prop where
   clock : ∀ e clk, Event.fire e clk ∈ h.trace → clk ≤ e.time ∧ e.time - clk ≤ eps
 
 theorem hinv_init : HInv hinit :=
-  ⟨inv_init, le_refl _, by simp [hinit, init, eps], by simp [hinit, init],
+  ⟨inv_init, le_refl _, by simp only [hinit, init, eps]; norm_num, by simp [hinit, init],
    by simp [hinit, fired, Sorted], by simp [hinit, fired], by simp [hinit]⟩
 
 end HcipyVerif.Scheduler
